@@ -58,13 +58,13 @@ fn collect_tagged_keys(
                         collect_tagged_keys(&mut value, path, paths)?;
                         path.pop_back();
                         paths.push(build_full_path(path, &escape_segment(&key_str)));
-                        untagged.insert(YamlValue::String(key_str), value);
+                        insert_unique(&mut untagged, key_str, value)?;
                     }
                     YamlValue::String(key_str) => {
                         path.push_back(escape_segment(&key_str));
                         collect_tagged_keys(&mut value, path, paths)?;
                         path.pop_back();
-                        untagged.insert(YamlValue::String(key_str), value);
+                        insert_unique(&mut untagged, key_str, value)?;
                     }
                     key => {
                         // a number, boolean or null used as a key names its member by its text in the
@@ -122,6 +122,24 @@ fn collect_tagged_keys(
         _ => {}
     }
 
+    Ok(())
+}
+
+// Without its tag a key may be the same as another key of the mapping. The same document without tags
+// is refused for its repeated key, so the tagged one is refused too instead of letting one value
+// replace the other.
+fn insert_unique(
+    mapping: &mut serde_yaml::Mapping,
+    key: String,
+    value: YamlValue,
+) -> Result<(), Error> {
+    if mapping.contains_key(key.as_str()) {
+        return Err(Error::YamlInvalidSDTag(format!(
+            "key {} occurs twice once the !sd tag is removed",
+            key
+        )));
+    }
+    mapping.insert(YamlValue::String(key), value);
     Ok(())
 }
 
